@@ -180,21 +180,6 @@ func (lg *ledger) indexObligation(container, index ssa.Value, ins ssa.Instructio
 	mk(what, oblPred{"0 <= index < len", func() (bool, string) { return lg.inBounds(index, lk, blk) }})
 }
 
-// isRangeIndex: go/ssa lowers `for i, x := range s` to
-//
-//	i' = phi(-1, i'+1); i = i'+1; if i < len(s) ...; s[i]
-func (lg *ledger) isRangeIndex(container, index ssa.Value) bool {
-	bo, ok := index.(*ssa.BinOp)
-	if !ok || bo.Op != token.ADD {
-		return false
-	}
-	phi, ok := bo.X.(*ssa.Phi)
-	if !ok || !strings.HasPrefix(phi.Comment, "rangeindex") {
-		return false
-	}
-	return true
-}
-
 func (lg *ledger) sliceObligation(x *ssa.Slice, blk *ssa.BasicBlock, mk func(string, ...oblPred)) {
 	// s[lo:hi] needs 0 <= lo <= hi <= len (cap for slices; len is sufficient)
 	base := x.X
@@ -645,15 +630,6 @@ func (lg *ledger) viaValidatingHelper(x ssa.Value, blk *ssa.BasicBlock, depth in
 		return false, ""
 	}
 	return true, "guaranteed by " + g.Name() + " on every return without error"
-}
-
-// proveAssignableOnEdge: like proveAssignable, also using the condition of the edge from -> to.
-func (lg *ledger) proveAssignableOnEdge(x, container ssa.Value, part string, from, to *ssa.BasicBlock) (bool, string) {
-	targets := []string{"Type." + part + "(Type(" + lg.key(container) + "))"}
-	if args, ok := reflectFunc(container, "ValueOf"); ok {
-		targets = append(targets, "Type."+part+"(TypeOf("+lg.key(args[0])+"))")
-	}
-	return lg.proveAssignableOnEdgeT(x, targets, from, to, 0)
 }
 
 func (lg *ledger) proveAssignableOnEdgeT(x ssa.Value, targets []string, from, to *ssa.BasicBlock, depth int) (bool, string) {
